@@ -432,9 +432,43 @@ def clause5_origin(ctx, P):
                    "the connection handler's is_local argument is not the result of is_localhost(&addr)")
 
 
+def clause6_group_bits(ctx, P):
+    """every registered group has a bit of its own in a group mask: the bit is built at the width of the mask and the number of
+    groups that can be registered does not exceed that width"""
+    gg = P.fn("groups.c:get_groups")
+    width = int(gg.ret[1:]) if gg.ret and gg.ret.startswith("i") and gg.ret[1:].isdigit() else None
+    if width is None:
+        raise AnalysisBroken("get_groups: return type %s" % gg.ret)
+    widened = []
+    nshl = 0
+    for i in gg.all_insts():
+        if i.op == "shl" and P.const_int(i.a[0]) == 1:
+            nshl += 1
+            if i.ty != "i%d" % width:
+                widened.append(i)
+    ctx.ob("C08.6 R-PAIR", gg, "group-bit-built-at-mask-width", nshl > 0 and not widened,
+           "the bit of a group is built as a %s shift and then converted to the %d bit mask: group numbers beyond the narrower width "
+           "alias lower ones (or are lost), so a peer is shown elements of groups it is not in" %
+           (", ".join(sorted({w.ty for w in widened})) or "?", width))
+    # registration limit <= width
+    lim = None
+    for f in P.own_functions():
+        if f.base != "groups.c":
+            continue
+        for i in f.all_insts():
+            if i.op == "icmp" and i.pred in ("sge", "uge", "sgt", "ugt"):
+                t = P.term(f, i.a[0])
+                c = P.const_int(i.a[1])
+                if c is not None and Q.mentions(t, lambda x: Q.is_call_to(x, "cJSON_GetArraySize")):
+                    lim = c + (1 if i.pred in ("sgt", "ugt") else 0)
+    ctx.ob("C08.6 R-BOUND", gg, "registered-groups-fit-the-mask", lim is not None and lim <= width,
+           "up to %s groups can be registered, a group mask has %d bits" % (lim, width))
+
+
 def run(ctx):
     for cfg in ctx.configs():
         P, cg = cfg.P, cfg.cg
+        clause6_group_bits(ctx, P)
         clause1_init(ctx, P)
         clause2_who(ctx, P)
         clause3_disclosure(ctx, P)
